@@ -143,10 +143,10 @@ fn cli(binary: &str, cases_path: &str, out_path: &str) {
     let mut out = BufWriter::new(File::create(out_path).expect("out"));
     for case in read_cases(cases_path) {
         let text = case["text"].as_str().unwrap().to_string();
-        // the front end has no step limit of its own: a diverging program is cut after 3 s and only the
-        // first MAX_STEPS steps of either side are compared
+        // the front end has no step limit of its own: a diverging program (or, on a busy machine, a slow start) is cut
+        // after 20 s; a run that was cut is compared on the steps it printed only
         const MAX_STEPS: usize = 2000;
-        let mut child = std::process::Command::new("timeout").arg("3").arg(binary).arg(&text)
+        let mut child = std::process::Command::new("timeout").arg("20").arg(binary).arg(&text)
             .stdout(std::process::Stdio::piped()).spawn().expect("run pushr");
         let mut stdout = String::new();
         {
@@ -200,6 +200,7 @@ fn cli(binary: &str, cases_path: &str, out_path: &str) {
         }
         writeln!(out, "{}", json!({"id": case["id"], "i": 0, "act": {"a": "cli", "text": text}, "pre": {"none": 0},
             "cli": cli_steps, "lib": lib_steps, "exit_ok": status.success(), "done": stdout.trim_end().ends_with("Done."),
+            "cut": status.code() == Some(124) || status.code().is_none(),
             "lib_done": lib_done,
             "post": {"none": 0}})).unwrap();
     }
